@@ -128,8 +128,17 @@ def dense(t_list, X, layout="C"):
 
 
 def grid(rng: Rng, m, uniform=None):
+    """Sorted dyadic grid: equally spaced, generic non-uniform, or (uniform=None, m ≥ 5, one time in five) a
+    regular schedule with one or two interior points displaced — first step and end points as on the regular
+    grid, so that "regular grid" shortcuts that look at the first step / the range only are exercised."""
     lo = rng.choice([0, 0, -1, 1, 100, Fraction(-7, 2)])
     scale = rng.choice([1, 1, 2, 364, Fraction(1, 8)])
+    if uniform is None and m >= 5 and rng.random() < 0.2:
+        t = rng.grid(m, lo=lo, scale=scale, uniform=True)
+        step = t[1] - t[0]
+        for j in rng.sample(range(2, m - 1), min(2, m - 3)):
+            t[j] += step * rng.choice([Fraction(1, 4), Fraction(-1, 4), Fraction(3, 8), Fraction(-1, 8)])
+        return t
     return rng.grid(m, lo=lo, scale=scale, uniform=uniform)
 
 
